@@ -56,6 +56,9 @@ CLAIMED = {
  'C16': ('property-based testing + bounded-exhaustive enumeration: format strings generated from the statement\'s grammar rendered by find on a tree of every creatable type x starting-point spellings x follow modes vs an independent renderer; identity checks (%p == -print, %H/%P recomposition, %y/%Y vs -type/-xtype)',
          'Exploration: every format of <= 2 (thorough 3) components over a 31-component alphabet plus tens of thousands of random formats (escapes, %%, 15 directives with flag and width, multi-byte literals) on entries of all types under -P/-H/-L and eleven spellings of the starting point, through -printf and -fprintf; output equals the independent rendering byte for byte.',
          'Reference renderer written from the statement over std::fs metadata; padding asserted on ASCII values; %f/%h left open where the last component / the part before it is not in normal form; one known finding (%H below a starting point not in normal form) excluded by construction and probed by the identities sub-run.', 'DESIGN.md §3 C16'),
+ 'C12': ('differential property-based testing + bounded-exhaustive enumeration against glibc fnmatch(3) (character-level, through transliteration of non-ASCII characters): the matcher behind -name/-path/-lname via a verif-hooks entry point, and end to end on real files and link targets',
+         'Exploration: every pattern of <= 4 (thorough 5) symbols over {a b * ? [ ] ! - \\ . /} x every subject of <= 4 symbols over {a b . / - ] NL} in both case modes (~87 million pairs), plus random patterns with classes, ranges, escapes, every regex metacharacter as a literal and multi-byte text against matching-by-construction subjects and their one-edit neighbours, plus find -name/-iname/-path/-ipath/-wholename/-lname/-ilname on files and link targets named by the subjects.',
+         'glibc fnmatch is the oracle on the compared domain; constructs POSIX leaves unspecified or where glibc deviates (listed in the evidence as discarded_outside_domain with counts) are not compared; a trailing lone backslash is judged by the statement directly.', 'DESIGN.md §3 C12'),
 }
 hooks_commits = subprocess.run(['git','-C','/repo','log','--format=%H %s'],capture_output=True,text=True).stdout.splitlines()
 hook_shas = [l.split()[0] for l in hooks_commits if 'verif hooks' in l]
